@@ -11,8 +11,14 @@ class for every other character).  lib/scanfsm.py explores all reachable
 configurations (CFG position x locals x class under the cursor) in lock step
 with a reference automaton written from the dialect documentation:
 
-  quoted string   q (chars | '\\' any)* q      Ok, consuming through the closing quote
+  skipped string  q (chars | '\\' any)* q      Ok, consuming through the closing quote
                   ... NUL                      IncompleteInput
+  kept string     q (chars | '\\' esc)* q      Ok / NoMemory; esc is one of " \\ / b f n r t '
+                                               or u followed by four hexadecimal digits
+                                               (with Unicode decoding off: u is an ordinary character);
+                                               any other escape: InvalidInput; NUL anywhere: IncompleteInput
+                                               (parseQuotedString with parseHex4 inlined; decodeHex and the
+                                               unescape table folded on class representatives)
   separators      (SP|TAB|CR|LF)*              consumed
                   '/' '*' ... '*' '/'          consumed      (comments enabled)
                   '/' '/' ... LF               consumed      (comments enabled)
@@ -90,6 +96,97 @@ def spec_separators(comments):
     return step
 
 
+ESC_LETTERS = [ord(c) for c in "\"\\/bfnrt'"]
+HEX = [ord(c) for c in "0123456789abcdefABCDEF"]
+
+
+def spec_parsed_string(q, unicode_on):
+    """Reference automaton of a string that is kept (escapes validated)."""
+    def step(s, ch):
+        if s == "open":
+            return ("consume", "body") if ch == q else ("stop", {"InvalidInput"})
+        if s == "body":
+            if ch == q:
+                return ("consume-stop", {"Ok", "NoMemory"})
+            if ch == 0:
+                return ("stop", {"IncompleteInput"})
+            if ch == ord("\\"):
+                return ("consume", "esc")
+            return ("consume", "body")
+        if s == "esc":
+            if ch == 0:
+                return ("stop", {"IncompleteInput"})
+            if ch == ord("u"):
+                # with Unicode decoding off the escape is kept as it is: the
+                # 'u' is an ordinary character of the body
+                return ("consume", "h4") if unicode_on else ("consume", "body")
+            if ch in ESC_LETTERS:
+                return ("consume", "body")
+            return ("stop", {"InvalidInput"})
+        if s in ("h4", "h3", "h2", "h1"):
+            if ch == 0:
+                return ("stop", {"IncompleteInput"})
+            if ch in HEX:
+                return ("consume", {"h4": "h3", "h3": "h2", "h2": "h1", "h1": "body"}[s])
+            return ("stop", {"InvalidInput"})
+        raise KeyError(s)
+    return step
+
+
+def run_parsed(ctx, prog, rule="R-SCAN"):
+    from rules import unicode
+    unicode._memo(ctx, prog, "scan-parsed", ["JsonDeserializer::parseQuotedString", "JsonDeserializer::parseHex4", "JsonDeserializer::decodeHex",
+                                            "JsonDeserializer::isBetween", "EscapeSequence::escapeTable", "EscapeSequence::unescapeChar"],
+                  lambda c_, p_: _run_parsed(c_, p_, rule))
+
+
+def _run_parsed(ctx, prog, rule="R-SCAN"):
+    """parseQuotedString (the keep path), with parseHex4 inlined and
+    decodeHex / unescapeChar folded on class representatives (their
+    uniformity over each class is R-HEX's and R-ESC's business)."""
+    E = {}
+    for e in prog.enum("DeserializationError::Code"):
+        for c in e["consts"]:
+            E[c["n"]] = int(c["v"])
+    fns = sorted(prog.q("JsonDeserializer::parseQuotedString"), key=lambda f: f.key)
+    ctx.floor(rule, "parseQuotedString", len(fns), 1)
+    # the unescape table, read from the literal of the current source (its
+    # content is judged by R-ESC; here it only drives the automaton)
+    table = None
+    for tf in prog.q("EscapeSequence::escapeTable")[:1]:
+        lit = offs = None
+        for i in tf.walk():
+            st = tf.s(i)
+            if st["k"] == "StringLiteral":
+                lit = st.get("bytes")
+            if st["k"] == "ConditionalOperator":
+                offs = (tf.const(st["c"][1]), tf.const(st["c"][2]))
+        if lit is not None and offs is not None and None not in offs:
+            table = {}
+            j = offs[1]
+            while j + 1 < len(lit) and lit[j] != 0:
+                table.setdefault(lit[j], lit[j + 1])
+                j += 2
+    if table is None:
+        ctx.ob(rule, "parseQuotedString: unescape table", None, "Json/EscapeSequence.hpp", "table literal not recognised")
+        return
+
+    def s8(v):
+        return v - 256 if v > 127 else v
+    hooks = {"unescapeChar": lambda c: s8(table.get(c % 256, 0))}
+    for fn in fns[:1]:
+        unicode_on = any(st["callee"]["q"].endswith("parseHex4") for _, st in fn.calls())
+        # one representative per class; the boundary neighbours of the digit
+        # ranges are classes of their own (uniformity inside the hex classes is R-HEX)
+        extra = [ord(c) for c in ":@G`gx/"] + [0x80 - 256, 0xFF - 256]
+        hexrep = [ord(c) for c in "09afAFe"]
+        alphabet = sorted(set([0, ord('"'), ord("'"), ord("\\"), ord("u")] + ESC_LETTERS + hexrep + extra))
+        for q in (ord('"'), ord("'")):
+            res = scanfsm.explore2(prog, fn, alphabet, {}, "open", spec_parsed_string(q, unicode_on), [q], E, pure_hooks=hooks)
+            inst = "parseQuotedString(%s) conforms to the string automaton (\\u %s)" % (chr(q), "decoded" if unicode_on else "kept")
+            report(ctx, rule, inst, fn, res)
+
+
 def run(ctx, prog, rule="R-SCAN"):
     E = {}
     for e in prog.enum("DeserializationError::Code"):
@@ -135,6 +232,7 @@ def run(ctx, prog, rule="R-SCAN"):
         inst = "skipSpacesAndComments conforms to the separator automaton (comments %s)" % ("on" if has_comments else "off")
         report(ctx, rule, inst, fn, res)
     ctx.floor(rule, "skipSpacesAndComments", len(fns), 1)
+    run_parsed(ctx, prog, rule)
     ctx.doc(rule, "scanning routines conform to reference automata over character classes (finite-state abstraction, all input strings)")
 
 
